@@ -41,6 +41,8 @@ def plan(tier, seed):
         for lf in E_LFANEW + (E_LFANEW_THOROUGH if tier == "thorough" else ()):
             ch.append({"key": f"params/{arch}/{lf:x}", "kind": "params", "arch": arch, "lf": lf, "cost": 800})
     ch.append({"key": "xorview", "kind": "xorview", "cost": 1500})
+    for arch in ("x86", "x64"):
+        ch.append({"key": f"maxrange/{arch}", "kind": "maxrange", "arch": arch, "cost": 2500})
     for part in range(8):
         ch.append({"key": f"maxenum/{part}", "kind": "maxenum", "part": part, "cost": 500})
     ch.append({"key": "stamps", "kind": "stamps", "cost": 50})
@@ -183,6 +185,40 @@ def chunk_params(chunk, acc):
             # the helper reports at most 1024 appended bytes, with NUL padding stripped
             check_image(acc, lambda: io.BytesIO(blob), p_exp, "append")
     acc.sample({"arch": arch, "e_lfanew": lf, "export_stamps": len(exports), "mz_magics": [m.hex() for m in MZ], "pe_magics": [m.hex() for m in PEM]})
+
+
+def check_image_maxrange(acc, blob, params, R):
+    """All helpers given the same explicit search range."""
+    from dissect.cobaltstrike import pe
+
+    exp = {"arch": params["arch"], "stamps": (params["compile"], params["export"]), "magic_mz": params["mz"], "magic_pe": params["pem"].rstrip(b"\x00"), "prepend": params["prepend"] or None, "append": norm_append(params["append"]), "mz_offset": len(params["prepend"])}
+    fh = io.BytesIO(blob)
+    got = {
+        "mz_offset": call(pe.find_mz_offset, fh, 0, R), "arch": call(pe.find_architecture, fh, maxrange=R), "stamps": call(pe.find_compile_stamps, fh, maxrange=R),
+        "magic_mz": call(pe.find_magic_mz, fh, maxrange=R), "magic_pe": call(pe.find_magic_pe, fh, maxrange=R),
+    }
+    pa = call(pe.find_stage_prepend_append, fh, maxrange=R)
+    if isinstance(pa, tuple):
+        got["prepend"], got["append"] = (pa[0] or None), norm_append(pa[1])
+    else:
+        got["prepend"] = got["append"] = pa
+    acc.transitions += 6
+    acc.case(("maxrange", params["arch"], params["lf"], len(params["prepend"]), R), outcome=(got["arch"], str(got["stamps"])))
+    bad = [k for k in exp if got[k] != exp[k]]
+    if bad:
+        acc.fail("C18/pe/maxrange/" + "+".join(sorted(bad)), {"kind": "maxrange", "arch": params["arch"], "lf": params["lf"], "prepend_len": len(params["prepend"]), "maxrange": R}, {k: _j(exp[k]) for k in bad}, {k: _j(got[k]) for k in bad})
+
+
+def chunk_maxrange(chunk, acc):
+    """A caller-supplied search range larger than the default: images behind 1024..2040 prepended bytes (and with
+    e_lfanew beyond 1024) are located by every helper that is given that range."""
+    arch = chunk["arch"]
+    for R in (2048, 4096):
+        for n, lf in ((0, 0x80), (1000, 0x80), (1024, 0x80), (1030, 0x80), (1500, 0xF8), (2040, 0x80), (0, 0x4B0), (700, 0x4B0)):
+            acc.states += 1
+            p = base_params(arch=arch, lf=lf, prepend=b"\x90" * n, append=b"TAIL")
+            check_image_maxrange(acc, build(p), p, R)
+    acc.sample({"arch": arch, "maxrange": [2048, 4096], "prepend_lengths": [0, 1000, 1024, 1030, 1500, 2040], "e_lfanew": ["0x80", "0xf8", "0x4b0"]})
 
 
 def chunk_xorview(chunk, acc):
@@ -346,6 +382,41 @@ def chunk_precedence(chunk, acc):
                 if obs != want:
                     bad = [k for k in want if want[k] != obs[k]]
                     acc.fail("C18/version/precedence/" + "+".join(bad), {"kind": "precedence", "arch": arch, "export": ex, "max_index": maxidx}, want, obs)
+    # the compile timestamp is a value like any other (0 and 1 included), through every constructor
+    import os
+    import tempfile
+
+    for arch in ("x86", "x64"):
+        for comp in (0, 1, 0x7FFFFFFF, 0xFFFFFFFF):
+            for ex in (stamps[-1], 0, None):
+                p = base_params(arch=arch, export=ex, compile=comp)
+                blob = build(p, data=RC.obfuscate(RC.block(RC.http_settings(), pad=4096), 0x2E))
+                for which in ("bytes", "file", "path", "xor-bytes"):
+                    acc.states += 1
+                    acc.transitions += 1
+                    if which == "bytes":
+                        bc = call(beacon.BeaconConfig.from_bytes, blob)
+                    elif which == "xor-bytes":
+                        bc = call(beacon.BeaconConfig.from_bytes, xorenc.encode(blob, stub=xorenc.CALL_STUB))
+                    elif which == "file":
+                        bc = call(beacon.BeaconConfig.from_file, io.BytesIO(blob))
+                    else:
+                        fd, path = tempfile.mkstemp(prefix="c18_", dir="/dev/shm" if os.path.isdir("/dev/shm") else None)
+                        try:
+                            with os.fdopen(fd, "wb") as f:
+                                f.write(blob)
+                            bc = call(beacon.BeaconConfig.from_path, path)
+                        finally:
+                            os.unlink(path)
+                    acc.case(("stamps", arch, comp, ex, which), outcome=str(getattr(bc, "architecture", bc)))
+                    if isinstance(bc, str):
+                        acc.fail("C18/version/from_bytes-failed", {"kind": "precedence", "arch": arch, "export": ex, "compile": comp, "which": which}, "BeaconConfig", bc)
+                        continue
+                    obs = {"export": bc.pe_export_stamp, "compile": bc.pe_compile_stamp, "arch": bc.architecture}
+                    want = {"export": ex, "compile": comp, "arch": arch}
+                    if obs != want:
+                        bad = [k for k in want if want[k] != obs[k]]
+                        acc.fail("C18/config/artefacts/" + "+".join(bad), {"kind": "precedence", "arch": arch, "export": ex, "compile": comp, "which": which}, want, obs)
     # a stomped export stamp that collides with a setting index, then a stage without export directory (same process)
     for small in (59, 78):
         s1 = RC.http_settings(extra=[(small, 0, b"")])
@@ -413,6 +484,8 @@ def replay(case):
         p = {k: case[k] for k in ("arch", "compile", "export", "lf")}
         for k in ("mz", "pem", "prepend", "append"):
             p[k] = bytes.fromhex(case[k])
+        if "export_at" in case:
+            p["export_at"] = case["export_at"]
         if case["label"] == "xorview":
             from dissect.cobaltstrike.xordecode import XorEncodedFile
 
@@ -425,6 +498,9 @@ def replay(case):
         else:
             blob = build(p)
             check_image(a, lambda: io.BytesIO(blob), p, "replay")
+    elif case["kind"] == "maxrange":
+        p = base_params(arch=case["arch"], lf=case["lf"], prepend=b"\x90" * case["prepend_len"], append=b"TAIL")
+        check_image_maxrange(a, build(p), p, case["maxrange"])
     else:
         fam = {"beyond": lambda c, x: chunk_prepend({"part": 0}, x), "maxenum": lambda c, x: chunk_maxenum({"part": case.get("index", 0) // 8192}, x), "stamp": chunk_stamps, "string": chunk_strings, "precedence": chunk_precedence, "bare": chunk_precedence, "xorview": chunk_xorview}[case["kind"]]
         fam({}, a)
